@@ -37,6 +37,7 @@ p='/verif/DESIGN.md'
 s=open(p).read()
 if '## 11. Seeded breaking changes' in s:
     s=s[:s.index('## 11. Seeded breaking changes')]
+s=re.sub(r'(\n-{60,}\n)+\s*$','\n',s.rstrip()+"\n")
 s=s.rstrip()+"\n\n---------------------------------------------------------------------------\n\n"+sec
 open(p,'w').write(s)
 print(n,first)
